@@ -37,7 +37,7 @@ func (e editor) enter(from *Selection, to *Selection, new bool, strategy editStr
 	}
 	defer func() {
 		if endErr := to.endEdit(NodeRequest{New: new, Source: to, EditRoot: root}, bubble); endErr != nil {
-			err = fmt.Errorf("error during endEdit: %v, previous error: %w", endErr, err)
+			err = wrapEndEditErr(endErr, err)
 		}
 	}()
 	if meta.IsList(from.Meta()) && !from.InsideList {
@@ -63,6 +63,9 @@ func (e editor) enter(from *Selection, to *Selection, new bool, strategy editStr
 				return err
 			}
 			m = ml.nextMeta()
+		}
+		if ml.err != nil {
+			return ml.err
 		}
 		//fmt.Printf("Ended %s\n", meta.SchemaPath(from.Meta()))
 	}
@@ -147,7 +150,7 @@ func (e editor) clearChoiceCase(sel *Selection, c *meta.ChoiceCase) error {
 		}
 		m = i.nextMeta()
 	}
-	return nil
+	return i.err
 }
 
 func (e editor) node(from *Selection, to *Selection, m meta.HasDataDefinitions, new bool, strategy editStrategy) error {
